@@ -243,11 +243,10 @@ func (c *Case) build(ctx context.Context, o order) *built {
 			noDirect(key)
 		case mIndirectRelay:
 			rk := fmt.Sprintf("relay%d", g)
-			relay := b.h.addLambda(rk, mkRelay())
 			if p.Relay {
-				relay.AddInput(key)
+				b.h.addLambda(rk, mkRelay[any]()).AddInput(key)
 			} else {
-				relay.AddDependency(key)
+				b.h.addLambda(rk, mkRelay[string]()).AddDependency(key)
 			}
 			noDirect(rk)
 		case mIndirectBranch:
